@@ -121,13 +121,13 @@ func validItems(f *corpus.Fam, level int) []*corpus.Item {
 func c02Run(c *core.Ctx) {
 	level := 2
 	if c.Thorough() {
-		level = 4
+		level = 5
 	}
 	for _, fam := range []string{"php7", "php5"} {
 		f := corpus.MustFam(fam)
 		for _, it := range validItems(f, level) {
 			c.SetAdd("rules_"+fam, itoa(it.Rule))
-			deep := level == 2 || it.Rule >= 0 && strings.Count(it.Why, "child") < 2
+			deep := true
 			forDeviations(it, deep, deep, func(src, why string) {
 				for vi, v := range famVersions[fam] {
 					if vi > 0 && why != it.Why {
@@ -141,7 +141,7 @@ func c02Run(c *core.Ctx) {
 					c.Sample(cs)
 				}
 			})
-			if c.Thorough() && strings.Count(it.Why, "pos") == 0 {
+			if c.Thorough() && strings.Count(it.Why, "pos") <= 1 && strings.Count(it.Why, "pair") == 0 {
 				forTwoDeviations(it, func(src, why string) {
 					if c.Next() {
 						c02One(c, mkCase(src, f.V, why))
@@ -180,7 +180,7 @@ func itoa(i int) string { return strconv.Itoa(i) }
 func init() {
 	register(&core.Check{
 		Prop: "C02", Level: "exploration", Exhaust: true, QuickSecs: 240, ThorSecs: 2400,
-		Rule: "E-lr corpus of both grammars (one sentence per rule and per (rule, position, child rule); thorough: + nullable combinations and 3-paths), written down by M-lex; each program in baseline layout under every version of its family, with a unique comment in every gap, with every single gap set to every trivia of the alphabet (1-deviation; thorough: pairs of neighbouring gaps), and with every token replaced by every alternative lexeme; plus hand-written heads × bodies × tails and literal forms under 7.4/7.2/5.6, plus multi-thousand-token programs under production pool blocks. " +
+		Rule: "E-lr corpus of both grammars (one sentence per rule and per (rule, position, child rule); thorough: + nullable combinations, 3-paths and pairs of positions, all with every 1-deviation), written down by M-lex; each program in baseline layout under every version of its family, with a unique comment in every gap, with every single gap set to every trivia of the alphabet (1-deviation; thorough: pairs of neighbouring gaps), and with every token replaced by every alternative lexeme; plus hand-written heads × bodies × tails and literal forms under 7.4/7.2/5.6, plus multi-thousand-token programs under production pool blocks. " +
 			"Oracle: zero reported errors ⇒ printer output == source bytes. non-trivial = parsed without error (round trip actually compared); distinct by (version, source text)",
 		Assume: []string{"programs with reported errors are not judged here (C06/C07/C08 do)"},
 		Run:    c02Run,
